@@ -3,8 +3,11 @@ package main
 // Intrinsic models of standard-library and dependency functions (trusted; listed in evidence).
 
 import (
+	"fmt"
+	"os"
 	"go/types"
 	"math/big"
+	"strconv"
 	"strings"
 
 	"golang.org/x/tools/go/ssa"
@@ -20,8 +23,12 @@ func (c *Ctx) intrinsic(st *State, in ssa.Instruction, callee *ssa.Function, arg
 	if !ok {
 		return nil, false
 	}
+	r := f(c, st, in, args)
+	if _, no := r.(notIntrinsic); no {
+		return nil, false
+	}
 	c.Assumed["intrinsic model of "+name] = true
-	return f(c, st, in, args), true
+	return r, true
 }
 
 type intrinsicFn func(c *Ctx, st *State, in ssa.Instruction, args []Value) Value
@@ -160,6 +167,178 @@ func init() {
 		}
 		return StrV{Spec: "itoa", SArgs: []Value{t}}
 	}
+	// bytes.Buffer used as an accumulator / reader over concrete-shaped data: rope model (the receiver's
+	// byte slice is engine-side; buffers over symbolic byte slices are executed from the library source instead)
+	bufRope := func(c *Ctx, st *State, v Value) (*Object, bool) {
+		p, ok := v.(PtrV)
+		if !ok || p.Nil || p.Obj == nil {
+			return nil, false
+		}
+		// locate the Buffer object: the pointer may be to a field inside a larger object; use a ghost key per (obj,path)
+		bv, ok := c.readPath(st, c.mem(st, p.Obj), p.Path).(*StructV)
+		if !ok || len(bv.F) < 1 {
+			return nil, false
+		}
+		if sl, ok := bv.F[0].(SliceV); ok && sl.Heap {
+			return nil, false
+		}
+		return p.Obj, true
+	}
+	ropeKey := func(v Value) string {
+		p := v.(PtrV)
+		return "rope:" + pathKey(p.Obj, pathInts(p.Path))
+	}
+	getRope := func(st *State, k string) StrV {
+		if r, ok := st.Ghost[k].(StrV); ok {
+			return r
+		}
+		return conc("")
+	}
+	// initRope: the first time a buffer is touched its rope is the unread part of its concrete byte slice
+	initRope := func(c *Ctx, st *State, v Value, k string) {
+		if _, ok := st.Ghost[k]; ok {
+			return
+		}
+		p := v.(PtrV)
+		bv := c.readPath(st, c.mem(st, p.Obj), p.Path).(*StructV)
+		sl, _ := bv.F[0].(SliceV)
+		off := 0
+		if t, ok := bv.F[1].(*Term); ok && isNum(t) {
+			off = c.constIdx(t)
+		}
+		if sl.Obj == nil || off >= sl.CLen {
+			st.Ghost[k] = conc("")
+			return
+		}
+		sub := SliceV{Elem: sl.Elem, Obj: sl.Obj, COff: sl.COff + off, CLen: sl.CLen - off, CCap: sl.CCap - off}
+		st.Ghost[k] = c.bytesToString(st, sub).(StrV)
+	}
+	bufMethod := func(name string, f func(c *Ctx, st *State, in ssa.Instruction, args []Value, key string) Value) {
+		full := "(*bytes.Buffer)." + name
+		intrinsics[full] = func(c *Ctx, st *State, in ssa.Instruction, args []Value) Value {
+			if _, ok := bufRope(c, st, args[0]); !ok {
+				return notIntrinsic{}
+			}
+			initRope(c, st, args[0], ropeKey(args[0]))
+			if os.Getenv("GOVC_DEBUG") != "" {
+				fmt.Printf("buf %s %s before: %s\n", name, ropeKey(args[0]), showValue(st.Ghost[ropeKey(args[0])]))
+			}
+			return f(c, st, in, args, ropeKey(args[0]))
+		}
+	}
+	bufMethod("Reset", func(c *Ctx, st *State, in ssa.Instruction, args []Value, k string) Value {
+		st.Ghost[k] = conc("")
+		return nil
+	})
+	bufMethod("WriteString", func(c *Ctx, st *State, in ssa.Instruction, args []Value, k string) Value {
+		s := args[1].(StrV)
+		st.Ghost[k] = c.strConcat(getRope(st, k), s)
+		return &TupleV{V: []Value{c.strLen(st, s), IfaceV{Nil: true}}}
+	})
+	bufMethod("WriteByte", func(c *Ctx, st *State, in ssa.Instruction, args []Value, k string) Value {
+		b := args[1].(*Term)
+		var piece StrV
+		if isNum(b) {
+			piece = conc(string([]byte{byte(b.Val.Int64())}))
+		} else {
+			piece = StrV{Spec: "chr", SArgs: []Value{b}}
+		}
+		st.Ghost[k] = c.strConcat(getRope(st, k), piece)
+		return IfaceV{Nil: true}
+	})
+	bufMethod("Write", func(c *Ctx, st *State, in ssa.Instruction, args []Value, k string) Value {
+		s := c.bytesToString(st, args[1].(SliceV)).(StrV)
+		st.Ghost[k] = c.strConcat(getRope(st, k), s)
+		return &TupleV{V: []Value{c.strLen(st, s), IfaceV{Nil: true}}}
+	})
+	bufMethod("String", func(c *Ctx, st *State, in ssa.Instruction, args []Value, k string) Value {
+		return getRope(st, k)
+	})
+	bufMethod("Bytes", func(c *Ctx, st *State, in ssa.Instruction, args []Value, k string) Value {
+		r := getRope(st, k)
+		ps := flattenRope(r)
+		if len(ps) == 0 {
+			return SliceV{Elem: types.Typ[types.Uint8]}
+		}
+		if len(ps) != 1 || ps[0].Conc == nil {
+			unsupported("Bytes() of a buffer with symbolic content")
+		}
+		return c.stringToSlice(st, ps[0], types.Typ[types.Uint8])
+	})
+	bufMethod("Len", func(c *Ctx, st *State, in ssa.Instruction, args []Value, k string) Value {
+		return c.strLen(st, getRope(st, k))
+	})
+	bufMethod("ReadByte", func(c *Ctx, st *State, in ssa.Instruction, args []Value, k string) Value {
+		r := getRope(st, k)
+		ps := flattenRope(r)
+		if len(ps) == 0 {
+			return &TupleV{V: []Value{c.byteC(0), IfaceV{Sym: IntC(1)}}}
+		}
+		if ps[0].Conc == nil {
+			unsupported("ReadByte from a buffer whose next byte is symbolic: key %s rope %s", k, showValue(r))
+		}
+		s := *ps[0].Conc
+		rest := append([]StrV{conc(s[1:])}, ps[1:]...)
+		st.Ghost[k] = StrV{Rope: flattenRope(StrV{Rope: rest})}
+		if len(flattenRope(st.Ghost[k].(StrV))) == 0 {
+			st.Ghost[k] = conc("")
+		}
+		return &TupleV{V: []Value{c.byteC(s[0]), IfaceV{Nil: true}}}
+	})
+	intrinsics["fmt.Sprintf"] = func(c *Ctx, st *State, in ssa.Instruction, args []Value) Value {
+		f, ok := concStr(args[0])
+		if !ok {
+			unsupported("fmt.Sprintf with a symbolic format")
+		}
+		va, _ := args[1].(SliceV)
+		var vals []interface{}
+		allConc := true
+		var sargs []Value
+		sargs = append(sargs, conc(f))
+		if va.Obj != nil {
+			av := c.mem(st, va.Obj).(*ArrayV)
+			for i := 0; i < va.CLen; i++ {
+				iv := av.Elems[va.COff+i].(IfaceV)
+				sargs = append(sargs, iv.Val)
+				switch x := iv.Val.(type) {
+				case *Term:
+					if n, ok := concInt(x); ok && isInteger(iv.Dyn) {
+						vals = append(vals, n)
+					} else {
+						allConc = false
+					}
+				case StrV:
+					if x.Conc != nil {
+						vals = append(vals, *x.Conc)
+					} else {
+						allConc = false
+					}
+				default:
+					allConc = false
+				}
+			}
+		}
+		if allConc {
+			return conc(fmt.Sprintf(f, vals...))
+		}
+		return StrV{Spec: "fmt", SArgs: sargs}
+	}
+	intrinsics["strconv.Atoi"] = func(c *Ctx, st *State, in ssa.Instruction, args []Value) Value {
+		s := args[0].(StrV)
+		if s.Conc != nil {
+			n, err := strconv.Atoi(*s.Conc)
+			if err != nil {
+				return &TupleV{V: []Value{c.idx(0), IfaceV{Sym: IntC(1)}}}
+			}
+			return &TupleV{V: []Value{c.idx(int64(n)), IfaceV{Nil: true}}}
+		}
+		if s.Spec == "itoa" {
+			// Atoi(Itoa(x)) == x
+			return &TupleV{V: []Value{s.SArgs[0], IfaceV{Nil: true}}}
+		}
+		id := c.strID(st, s)
+		return &TupleV{V: []Value{App("atoi."+c.modeTag(), c.IntSort(), id), IfaceV{Sym: Fresh("atoi.err", IntSort)}}}
+	}
 	// sync primitives: ghost events (the lock discipline itself is checked by the C10/C19 obligations)
 	for _, n := range []string{"(*sync.Mutex).Lock", "(*sync.Mutex).Unlock", "(*sync.RWMutex).Lock", "(*sync.RWMutex).Unlock", "(*sync.RWMutex).RLock", "(*sync.RWMutex).RUnlock"} {
 		name := n
@@ -191,3 +370,6 @@ func init() {
 
 // symbolicStrIntrinsics: models used when an argument is symbolic (filled in by the properties that need them).
 var symbolicStrIntrinsics = map[string]intrinsicFn{}
+
+// notIntrinsic: returned by a conditional intrinsic that declines (the callee is then executed from its source).
+type notIntrinsic struct{}
